@@ -37,6 +37,7 @@ import DPL.Proofs.ContinuousFoldModel
 import DPL.Proofs.ContinuousGaussMoments
 import Mathlib.MeasureTheory.Integral.IntervalIntegral.FundThmCalculus
 import Mathlib.Analysis.SpecialFunctions.Integrals.Basic
+import Mathlib.Analysis.Complex.ExponentialBounds
 
 namespace DPL.C19
 open DPL DPL.Cont MeasureTheory ProbabilityTheory
@@ -231,6 +232,29 @@ def truncated_moments_full : Prop :=
   ∀ (b l u v : ℝ), 0 < b → l ≤ u →
     let clampLaw := (volume.withDensity (fun y => ENNReal.ofReal (lapDensity b v y))).map (fun y => max l (min y u))
     (∫ y, (y - v) ∂clampLaw) = truncBiasOf b l u v
+
+/-- the counter-example behind the open finding `C19:LaplaceTruncated:value-outside-domain`: for the domain `[0, 0]`,
+scale 1 and value 1 the output is always 0, so the bias is `-1`, but the coded expression gives `(e⁻¹ - e)/2 ≈ -1.18`;
+hence `truncated_moments_full` is FALSE (and stays an unproved `def`) -/
+theorem truncated_moments_full_cex : ¬ truncated_moments_full := by
+  intro h
+  have h1 := h 1 0 0 1 one_pos le_rfl
+  dsimp only at h1
+  have hφ : (fun y : ℝ => max (0:ℝ) (min y 0)) = fun _ => 0 := by
+    funext y; exact max_eq_left (min_le_right y 0)
+  have hμ : (volume.withDensity (fun y => ENNReal.ofReal (lapDensity 1 1 y))) Set.univ = 1 :=
+    lapMeasure_univ 1 1 one_pos
+  rw [hφ, Measure.map_const, hμ, one_smul, integral_dirac] at h1
+  unfold truncBiasOf at h1
+  simp only [feq_real, one_ne_zero, decide_false, Bool.false_eq_true, if_false, transc_exp] at h1
+  have e1 : Real.exp ((0 - 1) / 1) = (Real.exp 1)⁻¹ := by rw [← Real.exp_neg]; norm_num
+  have e2 : Real.exp ((1 - 0) / 1) = Real.exp 1 := by norm_num
+  rw [e1, e2] at h1
+  have hE := Real.exp_one_gt_d9
+  have hpos : 0 < (Real.exp 1)⁻¹ := inv_pos.mpr (Real.exp_pos 1)
+  have hinv : (Real.exp 1)⁻¹ < 1 / 2 := by
+    rw [inv_lt_comm₀ (Real.exp_pos 1) (by norm_num)]; norm_num; linarith
+  linarith
 
 /-- **truncated Laplace, partial** (value inside a finite domain, `l ≤ v ≤ u`).  The law of `clamp(v + Laplace(b))` has
 point masses `E₁/2` at `l`, `E₂/2` at `u` (`E₁ = e^{(l-v)/b}`, `E₂ = e^{(v-u)/b}`) and the Laplace density in between.
